@@ -168,7 +168,7 @@ def rule_send_refusal(ctx):
                    "self.state": S_OPEN, "WebSocketProtocol.STATE_OPEN": S_OPEN, "self.trackedTimings": None, "self._perMessageCompress": pmc,
                    "self.maxMessagePayloadSize": M, "self.autoFragmentSize": auto, "self.wasMaxMessagePayloadSizeExceeded": False, "self": Sym("p"),
                    "self.trafficStats.outgoingWebSocketMessages": 0, "self.trafficStats.outgoingOctetsAppLevel": 0, "self.trafficStats.outgoingOctetsWebSocketLevel": 0}
-            t = Tiny(env, default_call=default)
+            t = Tiny(env, default_call=default, inline_self=inline_private(ctx, wsp, exclude=("_trigger", "_fail_connection", "_max_message_size_exceeded")))
             r = t.run(body)
             w = wire if wire is not None else n_
             want_refuse = M > 0 and w > M
